@@ -181,6 +181,12 @@ def instances(tier):
         # the same lemma for larger |x| (an absolute tolerance on x cannot be met once ulp(x) >= tol)
         for lo, hi in ((4.0, 8.0), (64.0, 128.0), (-2.0, -0.5), (-8.0, -4.0), (-128.0, -64.0)):
             out.append(dict(id="fp-lemma-%s-x%g-%g" % (dt, lo, hi), family="fp", dtype=dt, timeout_s=t, xlo=lo, xhi=hi, budget=dict(wall_s=t + 30, max_paths=4)))
+    # ---- floating-point corner: function values so large that the products formed by the interpolation formulas overflow the dtype
+    # (inf/inf = NaN interpolants); z3 (QF_FP) picks the function and the bracket, the REAL solvers run on it in that dtype
+    for dt in ("float16", "float32"):
+        for variant in (("pos", "neg") if q else ("pos", "neg", "near-a", "near-b")):
+            out.append(dict(id="fp-overflow-%s-%s" % (dt, variant), family="fpovf", dtype=dt, variant=variant, timeout_s=60 if q else 300,
+                            budget=dict(wall_s=(60 if q else 300) + 30, max_paths=4)))
     out.sort(key=_cost, reverse=True)      # the pool starts instances in list order: expensive ones first
     return out
 
@@ -188,7 +194,7 @@ def instances(tier):
 def _cost(i):
     """rough single-core seconds (measured), only used to order the work list"""
     fam, n, k = i["family"], i.get("nvec", 0), i.get("k", 0)
-    if fam == "fp":
+    if fam in ("fp", "fpovf"):
         return 1e6          # cheap, but first: their samples (witness, real-code runs) then appear in the evidence
     if fam == "quadratic":
         return 400.0
@@ -530,6 +536,8 @@ def scenario(c, inst):
     fam = inst["family"]
     if fam == "fp":
         return _fp_lemma(c, inst)
+    if fam == "fpovf":
+        return _fp_overflow(c, inst)
     tol_arg, tol = _tolerance(c, inst)
     n = inst.get("nvec", 0)
     if n == 0:
@@ -757,6 +765,109 @@ def _fp_lemma(c, inst):
         c.check(FP_CHECK, not defect, info=dict(dtype=dtype, witness={k: str(v) for k, v in wit.items()}, xrange=[inst.get("xlo", 0.5), inst.get("xhi", 2.0)]))
         return
     c.check(FP_CHECK, not _fp_on_real_code(c, dtype, c.real("s"), c.real("d"), c.real("x0"), inst.get("xlo", 0.5), inst.get("xhi", 2.0)))
+
+
+FPOVF_CHECK = "c14.fp.bracketed_sign_change_is_certified_when_products_of_function_values_overflow"
+
+
+def _fpovf_query(dtype, variant, timeout_s):
+    """floats s, d, a < b with f(x) = fl(fl(s*x) - d) finite at both ends, f(a)*f(b) < 0 in sign, and fl(f(a)*f(b)) infinite"""
+    import z3
+    eb, sb = FP_FORMATS[dtype]
+    npdt = np.dtype(dtype)
+    F = z3.FPSort(eb, sb)
+    rm = z3.RNE()
+    nb = eb + sb
+    sv, dv, av, bv = z3.FP("s", F), z3.FP("d", F), z3.FP("a", F), z3.FP("b", F)
+    tol = z3.FPVal(float(np.finfo(npdt).eps) * 4, F)
+    fa = z3.fpSub(rm, z3.fpMul(rm, sv, av), dv)
+    fb = z3.fpSub(rm, z3.fpMul(rm, sv, bv), dv)
+    sol = z3.SolverFor("QF_FP")
+    sol.set("timeout", int(timeout_s * 1000))
+    big = 8.0 if dtype == "float16" else 1e12
+    for v in (sv, dv, av, bv, fa, fb):
+        sol.add(z3.Not(z3.fpIsNaN(v)), z3.Not(z3.fpIsInf(v)))
+    sol.add(z3.fpLT(av, bv), z3.fpGEQ(av, z3.FPVal(-big, F)), z3.fpLEQ(bv, z3.FPVal(big, F)))
+    sol.add(z3.fpGEQ(z3.fpSub(rm, bv, av), z3.FPVal(0.25, F)))
+    if variant == "neg":
+        sol.add(z3.fpGT(fa, tol), z3.fpLT(fb, z3.fpNeg(tol)))
+    else:
+        sol.add(z3.fpLT(fa, z3.fpNeg(tol)), z3.fpGT(fb, tol))
+    sol.add(z3.fpIsInf(z3.fpMul(rm, fa, fb)))
+    eight = z3.FPVal(8.0, F)
+    if variant == "near-a":
+        sol.add(z3.fpLT(z3.fpMul(rm, z3.fpAbs(fa), eight), z3.fpAbs(fb)))
+    if variant == "near-b":
+        sol.add(z3.fpLT(z3.fpMul(rm, z3.fpAbs(fb), eight), z3.fpAbs(fa)))
+    r = sol.check()
+    if r == z3.unsat:
+        return "unsat", None
+    if r != z3.sat:
+        return "unknown", None
+    m = sol.model()
+    uint = {16: np.uint16, 32: np.uint32, 64: np.uint64}[nb]
+
+    def val(x):
+        bits = m.eval(z3.fpToIEEEBV(x), model_completion=True).as_long()
+        return Fraction(float(np.array([bits], dtype=uint).view(npdt)[0]))
+    return "sat", dict(s=val(sv), d=val(dv), a=val(av), b=val(bv))
+
+
+def _fpovf_real_code(dtype, s, d, a, b):
+    """the real solvers in dtype on f(x) = s*x - d over [a, b] and [b, a]; defect = a result that is outside the bracket, reported as
+    failure, or without a sign change within tol*max(1, |x|) of it"""
+    import warnings
+    from desolver.utilities import optimizer as opt
+    from desolver import backend as D
+    dt = np.dtype(dtype).type
+    s, d, a, b = dt(s), dt(d), dt(a), dt(b)
+    tol = D.epsilon(np.dtype(dtype))
+
+    def f(x):
+        return s * x - d
+    out = dict(dtype=dtype, s=float(s), d=float(d), a=float(a), b=float(b), f_a=float(f(a)), f_b=float(f(b)), product=float(f(a) * f(b)), runs=[])
+    bad = []
+    with warnings.catch_warnings():
+        warnings.simplefilter("ignore")
+        if not (np.isfinite(f(a)) and np.isfinite(f(b)) and np.sign(f(a)) * np.sign(f(b)) < 0 and np.isinf(f(a) * f(b))):
+            out["defect"] = False
+            out["note"] = "not the corner"
+            return out
+        for lo, hi in ((a, b), (b, a)):
+            x, ok = opt.brentsroot(f, [lo, hi])
+            xv, okv = opt.brentsrootvec([f], [np.asarray(lo), np.asarray(hi)])
+            for name, xx, oo in (("brentsroot", x, ok), ("brentsrootvec", np.ravel(xv)[0], np.ravel(okv)[0])):
+                inside = bool(np.isfinite(xx)) and bool(min(a, b) <= xx <= max(a, b))
+                near = False
+                if inside:
+                    dl = tol * max(dt(1), abs(dt(xx)))
+                    near = bool(np.sign(f(dt(xx) - dl)) * np.sign(f(dt(xx) + dl)) <= 0)
+                out["runs"].append(dict(solver=name, bracket=[float(lo), float(hi)], x=float(xx), success=bool(oo), inside=inside, sign_change_within_tol=near))
+                if not (inside and bool(oo) and near):
+                    bad.append(name)
+    out["defect"] = bool(bad)
+    out["defect_in"] = sorted(set(bad))
+    return out
+
+
+def _fp_overflow(c, inst):
+    dtype = inst["dtype"]
+    if c.symbolic:
+        from srx import core
+        status, wit = _fpovf_query(dtype, inst["variant"], inst.get("timeout_s", 60))
+        c.note("qf_fp_result", status)
+        if status != "sat":
+            raise core.BudgetHit("qf_fp_" + status)      # no corner found: inconclusive, never success
+        c.note("qf_fp_witness", {k: float(v) for k, v in wit.items()})
+        res = _fpovf_real_code(dtype, *(float(wit[k]) for k in ("s", "d", "a", "b")))
+        c.note("real_code", res)
+        for k, v in wit.items():
+            c.assume(c.eq(c.real("ovf_" + k), v))
+        c.check(FPOVF_CHECK, not res["defect"], info=dict(dtype=dtype, witness={k: str(v) for k, v in wit.items()}))
+        return
+    res = _fpovf_real_code(dtype, *(float(c.real("ovf_" + k)) for k in ("s", "d", "a", "b")))
+    c.note("real_code", res)
+    c.check(FPOVF_CHECK, not res["defect"])
 
 
 REPLAY_TOL = 4 * EPS64
